@@ -23,7 +23,7 @@ RULE = ('import form of module A x import form of module B (incl. colliding alia
         're-parse on a reset gin; negative menu (foreign imports, reserved name, late/aliased enabling, unknown feature, '
         'missing attribute). non-trivial = two modules or an alias involved.')
 ASSUMPTIONS = ['generated package c19pkg on sys.path (created per run, removed at exit)', 'in-memory reader for included files']
-WITNESSES = ['exact_object_configured', 'spellings_alias_same_configurable', 'method_configured', 'nested_class_configured',
+WITNESSES = ['bound_name_equal_to_package', 'wrapper_and_wrapped_distinct', 'exact_object_configured', 'spellings_alias_same_configurable', 'method_configured', 'nested_class_configured',
              'reference_survives_method_registration', 'foreign_import_rejected', 'reserved_gin_rejected',
              'late_enabling_rejected', 'aliased_enabling_rejected', 'unknown_feature_rejected', 'config_str_reparses',
              'colliding_names_realiased', 'missing_attribute_rejected']
@@ -81,6 +81,34 @@ def fn(a=None):
     open(os.path.join(d, 'c19pkg', sub, '__init__.py'), 'w').close()
     with open(os.path.join(d, 'c19pkg', sub, 'mod.py'), 'w') as fh:
       fh.write("def fn(a=None):\n  return ('%s.fn', a)\n" % sub)
+  # a package whose submodule is named like the package (the common tool/tool.py layout), with a function of the same
+  # name in the package itself, in the submodule and in a sibling; plus functions that wrap other functions
+  os.makedirs(os.path.join(d, 'c19tool'))
+  with open(os.path.join(d, 'c19tool', '__init__.py'), 'w') as fh:
+    fh.write("def fn(a=None):\n  return ('pkg.fn', a)\n")
+  with open(os.path.join(d, 'c19tool', 'helpers.py'), 'w') as fh:
+    fh.write("def fn(a=None):\n  return ('helpers.fn', a)\n")
+  with open(os.path.join(d, 'c19tool', 'c19tool.py'), 'w') as fh:
+    fh.write('''import functools
+
+def fn(a=None):
+  return ('mod.fn', a)
+
+def load(path='dflt'):
+  return ('load', path)
+
+@functools.wraps(load)
+def load_cached(*args, **kwargs):
+  return ('load_cached',) + load(*args, **kwargs)[1:]
+
+def load2(path='dflt'):
+  return ('load2', path)
+
+load_lru = functools.lru_cache(maxsize=None)(load2)
+
+def consume(source=None):
+  return source
+''')
   sys.path.insert(0, d)
   import atexit
   atexit.register(lambda: shutil.rmtree(d, ignore_errors=True))
@@ -89,6 +117,7 @@ def fn(a=None):
   import c19pkg.other  # pylint: disable=import-outside-toplevel,unused-import
   import c19pkg.third.mod  # pylint: disable=import-outside-toplevel,unused-import
   import c19pkg.fourth.mod  # pylint: disable=import-outside-toplevel,unused-import
+  import c19tool, c19tool.c19tool, c19tool.helpers  # pylint: disable=import-outside-toplevel,unused-import,multiple-imports
   import c19pkg.alpha.tools, c19pkg.beta.tools, c19pkg.alpha.deep.tools, c19pkg.beta.deep.tools  # pylint: disable=import-outside-toplevel,unused-import,multiple-imports
 
 
@@ -492,7 +521,94 @@ def run_multi(case, res):
   res.outcome('multi')
 
 
+U = 'unregistered'
+SPECIAL = {
+    # name -> (config text after HEAD, {object: (call result, bindings) for every registered object of interest})
+    'from_pkg_import_same_named_module': ("from c19tool import c19tool\nc19tool.fn.a = 1\n", {'mod.fn': (('mod.fn', 1), {'a': 1})}),
+    'from_pkg_import_same_named_module_as_itself': ("from c19tool import c19tool as c19tool\nc19tool.fn.a = 1\n",
+                                                    {'mod.fn': (('mod.fn', 1), {'a': 1})}),
+    'sibling_aliased_to_package_name': ("import c19tool.helpers as c19tool\nc19tool.fn.a = 1\n",
+                                        {'helpers.fn': (('helpers.fn', 1), {'a': 1})}),
+    'same_named_module_aliased_to_package_name': ("import c19tool.c19tool as c19tool\nc19tool.fn.a = 1\n",
+                                                  {'mod.fn': (('mod.fn', 1), {'a': 1})}),
+    'plain_package': ("import c19tool\nc19tool.fn.a = 1\n", {'pkg.fn': (('pkg.fn', 1), {'a': 1})}),
+    'plain_module_spells_both': ("import c19tool.c19tool\nc19tool.c19tool.fn.a = 1\nc19tool.fn.a = 2\n",
+                                 {'mod.fn': (('mod.fn', 1), {'a': 1}), 'pkg.fn': (('pkg.fn', 2), {'a': 2})}),
+    'wrapped_then_wrapper': ("from c19tool import c19tool as t\nt.load.path = 'p1'\nt.load_cached.path = 'p2'\n"
+                             "t.consume.source = @t.load_cached()\n",
+                             {'load': (('load', 'p1'), {'path': 'p1'}), 'load_cached': (('load_cached', 'p2'), {'path': 'p2'}),
+                              'consume': (('load_cached', 'p2'), {'source': '@ref'})}),
+    'wrapper_then_wrapped': ("from c19tool import c19tool as t\nt.load_cached.path = 'p2'\nt.load.path = 'p1'\n"
+                             "t.consume.source = @t.load()\n",
+                             {'load': (('load', 'p1'), {'path': 'p1'}), 'load_cached': (('load_cached', 'p2'), {'path': 'p2'}),
+                              'consume': (('load', 'p1'), {'source': '@ref'})}),
+    'wrapper_only': ("from c19tool import c19tool as t\nt.load_cached.path = 'p2'\n",
+                     {'load_cached': (('load_cached', 'p2'), {'path': 'p2'})}),
+    'wrapped_only_then_reference_to_wrapper': ("from c19tool import c19tool as t\nt.load.path = 'p1'\n"
+                                               "t.consume.source = @t.load_cached()\n",
+                                               {'load': (('load', 'p1'), {'path': 'p1'}), 'load_cached': (('load_cached', 'dflt'), {}),
+                                                'consume': (('load_cached', 'dflt'), {'source': '@ref'})}),
+    'lru_wrapped_then_wrapper': ("import c19tool.c19tool as t\nt.load2.path = 'a'\nt.load_lru.path = 'b'\n",
+                                 {'load2': (('load2', 'a'), {'path': 'a'}), 'load_lru': (('load2', 'b'), {'path': 'b'})}),
+    'lru_wrapper_then_wrapped': ("import c19tool.c19tool as t\nt.load_lru.path = 'b'\nt.load2.path = 'a'\n",
+                                 {'load2': (('load2', 'a'), {'path': 'a'}), 'load_lru': (('load2', 'b'), {'path': 'b'})}),
+}
+
+
+def special_observe():
+  import c19tool  # pylint: disable=import-outside-toplevel
+  m, h = c19tool.c19tool, c19tool.helpers
+  objs = {'pkg.fn': c19tool.fn, 'mod.fn': m.fn, 'helpers.fn': h.fn, 'load': m.load, 'load_cached': m.load_cached,
+          'load2': m.load2, 'load_lru': m.load_lru, 'consume': m.consume}
+  obs = {}
+  for name, o in objs.items():
+    try:
+      c = gin.get_configurable(o)
+    except ValueError:
+      continue
+    try:
+      b = {k: (v if isinstance(v, (str, int)) else '@ref') for k, v in gin.get_bindings(o, resolve_references=False).items()}
+      obs[name] = (c(), b)
+    except Exception as e:  # pylint: disable=broad-except
+      obs[name] = 'raised %r' % (e,)
+  return obs
+
+
+def run_special(case, res):
+  name = case[1]
+  text, want = SPECIAL[name]
+  harness.hard_reset()
+  MEM.clear()
+  res.case(tuple(case), True)
+  try:
+    gin.parse_config(HEAD + text)
+    got = special_observe()
+  except Exception as e:  # pylint: disable=broad-except
+    res.violation('special:' + name, '%r: config\n%s\nraised %r' % (case, text, e), list(case))
+    return
+  res.outcome('special')
+  if got != want:
+    res.violation('wrong_object_configured', '%r: config\n%s\nregistered/configured %r, expected %r' %
+                  (case, text, got, want), list(case))
+    return
+  try:
+    emitted = gin.config_str()
+    harness.hard_reset()
+    gin.parse_config(emitted)
+    again = special_observe()
+  except Exception as e:  # pylint: disable=broad-except
+    res.violation('special_roundtrip:' + name, '%r: re-parsing the config string raised %r' % (case, e), list(case))
+    return
+  if again != want:
+    res.violation('special_roundtrip:' + name, '%r: config string\n%s\nconfigures %r, expected %r' %
+                  (case, emitted, again, want), list(case))
+    return
+  res.w('bound_name_equal_to_package' if 'load' not in text else 'wrapper_and_wrapped_distinct')
+
+
 def gen(tier):
+  for n in SPECIAL:
+    yield ['special', n]
   yield from multi_cases()
   yield from plain_cases()
   orders = [['fn'], ['fn', 'Cls', 'Cls.meth', 'Cls.Nested'], ['Cls.meth', 'Cls', 'fn'], ['Cls', 'Cls.meth'],
@@ -519,7 +635,7 @@ def run_shard(i, tier):
     if n % NSH != i:
       continue
     try:
-      {'neg': run_negative, 'multi': run_multi, 'plain': run_plain}.get(c[0], run_case)(c, res)
+      {'neg': run_negative, 'multi': run_multi, 'plain': run_plain, 'special': run_special}.get(c[0], run_case)(c, res)
     except Exception:  # pylint: disable=broad-except
       import traceback
       res.extra['harness_error'] = traceback.format_exc() + '\ncase=%r' % (c,)
@@ -532,6 +648,6 @@ def run_shard(i, tier):
 
 def replay(c):
   res = core.Result()
-  {'neg': run_negative, 'multi': run_multi, 'plain': run_plain}.get(c[0], run_case)(c, res)
+  {'neg': run_negative, 'multi': run_multi, 'plain': run_plain, 'special': run_special}.get(c[0], run_case)(c, res)
   harness.hard_reset()
   return res
